@@ -52,8 +52,14 @@ pub fn lines(rng: &mut Rng) -> (Vec<String>, usize, bool) {
                 "MULTI_VERSION" => (0..rng.below(3)).map(|i| format!("PYTHON_VERSION_REQD={}{}", tag, i)).collect::<Vec<_>>().join(" "),
                 _ => match rng.below(5) { 0 => String::new(), 1 => format!("{} with = sign", tag), 2 => format!("{} é", tag), _ => format!("{}-{}", tag, rng.below(100)) },
             };
+            // a literal of the code under test as (part of) the key - an unknown key that looks
+            // like a known one - or of the value
+            let k: String = crate::dict::dictify(rng, k, 25).replace(['\n', '\r'], "");
+            let v: String = if k == "PKG_LOCATION" || k == "ALL_DEPENDS" { v } else { crate::dict::dictify(rng, &v, 25).replace(['\n', '\r'], "") };
+            let k = k.as_str();
             out.push(format!("{}{}={}{}{}", if rng.chance(1, 10) { " " } else { "" }, k, if rng.chance(1, 10) { " " } else { "" }, v, if rng.chance(1, 10) { "  " } else { "" }));
             if rng.chance(1, 8) { out.push(rng.pick_str(&["", "   ", "no equals sign", "UNKNOWN_KEY=zzz", "# comment"]).to_string()); }
+            if rng.chance(1, 25) { out.push(format!("{}={}", crate::dict::token(rng).replace(['\n', '\r', '='], ""), rng.pick_str(&["devel/a", "x", "", "../../www/b", "bad path"]))); }
         }
         if fault == 2 && r == fault_rec {
             out.push(format!("ALL_DEPENDS={}", dep(rng, true)));
